@@ -21,5 +21,7 @@ META = {
 def check(run):
     common.mc_structs(run, negative_control=False)
     common.gen_structs(run)
+    # structures at the front of a buffer with more than 64 KiB behind them
+    run.gen("Gen_BigTail", heap="8g")
     run.replay_and_judge()
     return vlib.finish(run, "model_checking", RULE, ASSUME)
